@@ -660,11 +660,31 @@ def weave_fn(w, item_id, text, spec, log):
     # loops (from last to first so offsets stay valid)
     loops = _find_loops(text, toks)
     lspecs = spec.get('loops', {}) or {}
+    # resolve each specified loop to an actual loop: by header pattern when given (robust against
+    # loops being added / removed), else by ordinal
+    resolved = {}
     for k in lspecs:
-        if k < 1 or k > len(loops):
-            raise Undecided('%s: loop %d not found (function has %d loops)' % (item_id, k, len(loops)))
-    for k in sorted(lspecs, reverse=True):
-        kw, bo = loops[k - 1]
+        hdr = lspecs[k].get('header')
+        if hdr:
+            cands = [i for i, (kw, bo) in enumerate(loops)
+                     if re.search(hdr, re.sub(r'\s+', ' ', text[toks[kw].start:toks[bo].start]).strip())]
+            if len(cands) == 1:
+                resolved[k] = cands[0]
+            elif len(cands) == 0:
+                log.append(('R10', '%s: loop %d (header /%s/) no longer exists: its invariants are dropped' % (item_id, k, hdr)))
+            else:
+                if k - 1 in cands:
+                    resolved[k] = k - 1
+                else:
+                    raise Undecided('%s: loop %d header /%s/ is ambiguous' % (item_id, k, hdr))
+        else:
+            if k < 1 or k > len(loops):
+                raise Undecided('%s: loop %d not found (function has %d loops)' % (item_id, k, len(loops)))
+            resolved[k] = k - 1
+    if len(set(resolved.values())) != len(resolved):
+        raise Undecided('%s: two loop specifications resolve to the same loop' % item_id)
+    for k in sorted(resolved, key=lambda kk: resolved[kk], reverse=True):
+        kw, bo = loops[resolved[k]]
         ls = lspecs[k]
         s = '\n'
         inv = norm_clauses(ls.get('invariant'), 'invariant', props)
